@@ -90,6 +90,12 @@ func (in *Interp) nilOf(v Value) (bdd.Node, bool) {
 // ModelFunc models an external function (st is the state current at the call).
 type ModelFunc func(in *Interp, args []Value, guard bdd.Node, st *State, pos string) (Value, bool)
 
+// CarriedLoc names a store location (with its type) to generalise at a loop header.
+type CarriedLoc struct {
+	Key  string
+	Type types.Type
+}
+
 // LoopFlow is the value of one loop-header phi along an edge.
 type LoopFlow struct {
 	Phi  string
@@ -108,8 +114,14 @@ type LoopSummary struct {
 	Init         []LoopFlow // values entering the loop
 	Back         []LoopFlow // values flowing along back edges (functions of the loop atoms)
 	StoreChanged []string   // store locations the body changes (other than through events)
-	BackState    *State     // the state flowing along the (last) back edge
-	headState    *State
+	// Carried: store locations replaced by atoms "loop<ID>.mem(<key>)" at the
+	// header (second pass, see Interp.LoopCarried), with the value entering the
+	// loop and the value flowing along the back edge.
+	Carried     []string
+	CarriedInit map[string]Value
+	CarriedBack map[string]Value
+	BackState   *State // the state flowing along the (last) back edge
+	headState   *State
 }
 
 // CurPred is the path predicate of the instruction being interpreted.
@@ -172,7 +184,14 @@ type Interp struct {
 	// once, and the values flowing along the back edge recorded in Loops.
 	LoopBodies bool
 	Loops      []*LoopSummary
-	rangeN     int
+	// OnPoll answers a non-blocking poll of the Done channel of the named
+	// context with a fresh observation.
+	OnPoll func(dev string) bdd.Node
+	// LoopCarried (second pass): per loop ID, the store locations to generalise
+	// at the loop header - typically the StoreChanged of a first pass - so that
+	// the one interpreted iteration stands for every iteration.
+	LoopCarried map[int][]CarriedLoc
+	rangeN      int
 	// OnInvoke may take over a call on a symbolic interface value (e.g. one
 	// with slice arguments).
 	OnInvoke func(in *Interp, kind, dev string, args []Value, guard bdd.Node, st *State, pos string) (Value, bool)
@@ -742,6 +761,20 @@ func (in *Interp) callBound(fn *ssa.Function, args []Value, bindings []Value, gu
 				ls := &LoopSummary{ID: len(in.Loops) + 1, Fn: fn.String(), Header: b.Comment, EntryPred: pred, BackPred: bdd.False, headState: cur.Clone()}
 				in.Loops = append(in.Loops, ls)
 				loopOf[b] = ls
+				for _, cl := range in.LoopCarried[ls.ID] {
+					k := cl.Key
+					root, path := SplitKey(k)
+					bv, isBV := in.Load(cur, &Ptr{Root: root, Path: path, Nil: bdd.False}, cl.Type, 0).(dom.BV)
+					if !isBV {
+						continue // only integer locations are generalised
+					}
+					if ls.CarriedInit == nil {
+						ls.CarriedInit, ls.CarriedBack = map[string]Value{}, map[string]Value{}
+					}
+					ls.Carried = append(ls.Carried, k)
+					ls.CarriedInit[k] = bv
+					cur.Set(root, path, in.C.Atom(fmt.Sprintf("loop%d.mem(%s)", ls.ID, k), len(bv)))
+				}
 			}
 		}
 		if top {
@@ -764,6 +797,14 @@ func (in *Interp) callBound(fn *ssa.Function, args []Value, bindings []Value, gu
 								ls.Back = append(ls.Back, LoopFlow{Phi: phi.Comment + "#" + phi.Name(), Pred: p, Val: in.operand(fr, phi.Edges[pi])})
 							}
 						}
+					}
+					for _, k := range ls.Carried {
+						root, path := SplitKey(k)
+						v, _ := s.Get(root, path)
+						if old, seen := ls.CarriedBack[k]; seen && old != nil && v != nil {
+							v = MuxValue(in.C, p, v, old)
+						}
+						ls.CarriedBack[k] = v
 					}
 					ls.BackPred = in.C.M.Or(ls.BackPred, p)
 					ls.BackState = s
@@ -1062,6 +1103,23 @@ func (in *Interp) exec(fr *frame, instr ssa.Instruction, pred bdd.Node, st *Stat
 			fv.Bindings = append(fv.Bindings, in.operand(fr, b))
 		}
 		fr.vals[x] = fv
+	case *ssa.Select:
+		// the non-blocking poll of a context's Done channel:
+		//   select { case <-done: ...; default: }
+		if !x.Blocking && len(x.States) == 1 && x.States[0].Dir == types.RecvOnly && in.OnPoll != nil {
+			if o, ok := in.operand(fr, x.States[0].Chan).(*Opaque); ok && strings.HasPrefix(o.Why, "done:") {
+				ready := in.OnPoll(strings.TrimPrefix(o.Why, "done:"))
+				w := in.intWidth()
+				tup := x.Type().(*types.Tuple)
+				t := &Tuple{Elems: []Value{C.Mux(ready, C.Const(w, 0), C.Const(w, ^uint64(0))), dom.BV{ready}}}
+				for i := 2; i < tup.Len(); i++ {
+					t.Elems = append(t.Elems, in.zero(tup.At(i).Type()))
+				}
+				fr.vals[x] = t
+				return
+			}
+		}
+		in.undecided(x.Pos(), "select statement outside the modelled form (a non-blocking poll of a context's Done channel)")
 	case *ssa.Go:
 		if in.OnGo == nil {
 			in.undecided(x.Pos(), "go statement")
@@ -1683,7 +1741,15 @@ func (in *Interp) callInstr(fr *frame, x *ssa.Call, pred bdd.Node, st *State) Va
 	var bindings []Value
 	if fn == nil {
 		// a call through a function value the analysis has resolved
-		fv, ok := in.operand(fr, cc.Value).(*FuncV)
+		callee := in.operand(fr, cc.Value)
+		if mv, isMux := callee.(*MuxV); isMux {
+			// a function selected by a value (a small table indexed by state):
+			// one call per alternative under its condition, results and states merged
+			if res, ok := in.callAlternatives(mv, args, pred, st, x.Pos()); ok {
+				return res
+			}
+		}
+		fv, ok := callee.(*FuncV)
 		if !ok || fv.Fn == nil {
 			in.undecided(x.Pos(), "dynamic call through a function value that is not resolved to one function")
 		}
@@ -1931,6 +1997,29 @@ func (in *Interp) copyBuiltin(args []Value, pred bdd.Node, st *State, x *ssa.Cal
 	if sv, isStr := args[1].(*Str); isStr && sv.Sym != "" {
 		src, ok2 = &Slice{Sym: sv.Sym, Nil: bdd.False, Len: sv.Len}, true
 	}
+	if ok1 && ok2 && dst.Rope == nil && src.Rope != nil && dst.Sym == "" {
+		// source built by append from known bytes: element-wise into a concrete window
+		var bs []dom.BV
+		for _, sg := range src.Rope {
+			if sg.Bytes == nil {
+				return nil, false
+			}
+			bs = append(bs, sg.Bytes...)
+		}
+		dn, isc := dst.Len.IsConst()
+		if !isc || dn > maxArrayLeaves {
+			return nil, false
+		}
+		elemT := x.Call.Args[0].Type().Underlying().(*types.Slice).Elem()
+		n := int(dn)
+		if len(bs) < n {
+			n = len(bs)
+		}
+		for i := 0; i < n; i++ {
+			in.storeAt(st, dst.Root, in.roots[dst.Root], elemPath(dst.Path, dst.Lo+i), elemT, bs[i], bdd.True, x.Pos())
+		}
+		return in.C.Const(in.intWidth(), uint64(n)), true
+	}
 	if !ok1 || !ok2 || dst.Rope != nil || src.Rope != nil {
 		return nil, false
 	}
@@ -2123,4 +2212,52 @@ func (in *Interp) selfStore(st *State, p *Ptr, v Value) bool {
 	}
 	cur, ok := st.Get(p.Root, p.Path)
 	return ok && SameValue(cur, v)
+}
+
+// callAlternatives calls every function a MuxV of function values can denote.
+func (in *Interp) callAlternatives(mv *MuxV, args []Value, pred bdd.Node, st *State, pos token.Pos) (Value, bool) {
+	type alt struct {
+		g  bdd.Node
+		fv *FuncV
+	}
+	var alts []alt
+	ok := true
+	var walk func(v Value, g bdd.Node)
+	walk = func(v Value, g bdd.Node) {
+		if g == bdd.False {
+			return
+		}
+		switch x := v.(type) {
+		case *MuxV:
+			walk(x.A, in.C.M.And(g, x.P))
+			walk(x.B, in.C.M.And(g, in.C.M.Not(x.P)))
+		case *FuncV:
+			if x.Fn == nil || !load.InModule(x.Fn) || x.Fn.Blocks == nil {
+				ok = false
+				return
+			}
+			alts = append(alts, alt{g, x})
+		default:
+			ok = false
+		}
+	}
+	walk(mv, pred)
+	if !ok || len(alts) == 0 || len(alts) > 16 {
+		return nil, false
+	}
+	var edges []inEdge
+	var res Value
+	for i, a := range alts {
+		r, out := in.callBound(a.fv.Fn, args, a.fv.Bindings, a.g, st.Clone(), pos)
+		edges = append(edges, inEdge{nil, a.g, out})
+		if i == 0 || res == nil {
+			res = r
+		} else if r != nil {
+			res = MuxValue(in.C, a.g, r, res)
+		}
+	}
+	_, cur := in.mergeStates(edges)
+	*st = *cur
+	in.curPred = pred
+	return res, true
 }
